@@ -210,6 +210,12 @@ func runH265Parse(donl bool, payloads [][]byte) Outcome {
 		o.Nontrivial = true
 		o.Tags = append(o.Tags, "h265 accepted")
 		res = append(res, L(OkV(vH265Packet(d)), Bool(head)))
+		// reuse: a fresh receiver must report the same structure and fields
+		f := &codecs.H265Packet{}
+		f.WithDONL(donl)
+		if _, e2 := f.Unmarshal(append([]byte{}, in...)); e2 != nil || Render(vH265Packet(f)) != Render(vH265Packet(d)) {
+			o.Fail = fmt.Sprintf("step %d: reused receiver reports %s, a fresh one %s", i, Render(vH265Packet(d)), Render(vH265Packet(f)))
+		}
 	}
 	o.Impl = res
 	return o
@@ -561,6 +567,24 @@ func init() {
 					// parser inputs: random, truncated, mutated payloader output
 					donl := c.Bool()
 					ps := TList{}
+					if c.Intn(4) == 0 {
+						// runs of well-formed payloads of the same kind into one receiver (a PACI with PHES
+						// then one without, an FU start then continuations, ...)
+						kind := c.Intn(4)
+						for k, kn := 0, 2+c.Intn(3); k < kn; k++ {
+							var f TList
+							for {
+								f = genRfc7798Form(c.Fork(uint64(100 + k)))
+								if int(tokInt(f[0])) == kind {
+									break
+								}
+								c.Intn(2)
+							}
+							ps = append(ps, TBytes(rfc7798Encode(donl, f)))
+						}
+						emit(1402, TI(b2i(donl)), ps)
+						continue
+					}
 					for k, kn := 0, 1+c.Intn(4); k < kn; k++ {
 						var b []byte
 						switch c.Intn(5) {
